@@ -164,9 +164,10 @@ func c05Sizes(r *core.Report, pk string) {
 		if !ok || len(as.Lhs) != 1 || len(as.Rhs) != 1 {
 			continue
 		}
-		if ix, ok := core.Unparen(as.Lhs[0]).(*ast.IndexExpr); ok && strings.Contains(core.ExprStr(ix.X), "prefixToOffset") {
-			if o := core.ObjOf(info, as.Rhs[0]); o != nil {
-				if _, isC := core.ConstInt(info, as.Rhs[0]); !isC {
+		// table[bucket] = <running offset>: an indexed store of a local unsigned counter that the same loop advances
+		if _, ok := core.Unparen(as.Lhs[0]).(*ast.IndexExpr); ok && as.Tok == token.ASSIGN {
+			if o, isV := core.ObjOf(info, as.Rhs[0]).(*types.Var); isV && !o.IsField() {
+				if _, isC := core.ConstInt(info, as.Rhs[0]); !isC && isIntegerType(o.Type()) && advancedInLoopOf(seal, as, o) {
 					store, prev = n, o
 				}
 			}
@@ -325,8 +326,15 @@ func c05Sizes(r *core.Report, pk string) {
 				if nm == "io.NewSectionReader" || strings.HasSuffix(nm, ".ReadAt") {
 					for _, a := range x.Args {
 						if be, ok := core.Unparen(a).(*ast.BinaryExpr); ok && be.Op == token.ADD {
-							if v, isC := core.ConstInt(hi, be.Y); isC && strings.Contains(strings.ToLower(core.ExprStr(be.X)), "offset") {
-								skip = v
+							// <bucket offset looked up in the prefix table> + K
+							if v, isC := core.ConstInt(hi, be.Y); isC {
+								if o := core.ObjOf(hi, stripConvs(hi, be.X)); o != nil {
+									if d := singleDef(has, o); d != nil {
+										if _, isIx := core.Unparen(d).(*ast.IndexExpr); isIx {
+											skip = v
+										}
+									}
+								}
 							}
 						}
 					}
@@ -351,9 +359,29 @@ func c05Sizes(r *core.Report, pk string) {
 		fmt.Sprintf("the reader's widths (count buffer %d, skip %d, stride %d, element %d) differ from what the writer emits (count %d, element %d)", cntBuf, skip, stride, elRead, cntW, elW))
 	// header size: writer stores headerSize-4, reader returns headerSize+4
 	wOK, rOK := false, false
+	// writer: <count of bytes the header Write reported> - 4
+	definedByCall := func(fn *core.Func, e ast.Expr, isCall func(c *ast.CallExpr) bool) bool {
+		o := core.ObjOf(fn.Pkg.TypesInfo, stripConvs(fn.Pkg.TypesInfo, e))
+		if o == nil {
+			return false
+		}
+		found := false
+		ast.Inspect(fn.Body, func(m ast.Node) bool {
+			if as, ok := m.(*ast.AssignStmt); ok && len(as.Rhs) == 1 && len(as.Lhs) >= 1 && core.ObjOf(fn.Pkg.TypesInfo, as.Lhs[0]) == o {
+				if c, ok := core.Unparen(stripConvs(fn.Pkg.TypesInfo, as.Rhs[0])).(*ast.CallExpr); ok && isCall(c) {
+					found = true
+				}
+			}
+			return true
+		})
+		return found
+	}
 	ast.Inspect(seal.Body, func(n ast.Node) bool {
-		if be, ok := n.(*ast.BinaryExpr); ok && be.Op == token.SUB && strings.Contains(core.ExprStr(be.X), "headerSize") {
-			if c, ok := core.ConstInt(info, be.Y); ok && c == 4 {
+		if be, ok := n.(*ast.BinaryExpr); ok && be.Op == token.SUB {
+			if c, ok := core.ConstInt(info, be.Y); ok && c == 4 && definedByCall(seal, be.X, func(c *ast.CallExpr) bool {
+				sel, ok := core.Unparen(c.Fun).(*ast.SelectorExpr)
+				return ok && sel.Sel.Name == "Write"
+			}) {
 				wOK = true
 			}
 		}
@@ -363,8 +391,10 @@ func c05Sizes(r *core.Report, pk string) {
 		ri := rh.Pkg.TypesInfo
 		for _, rn := range p.Graph(rh).Returns() {
 			for _, e := range returnResults(rn) {
-				if be, ok := core.Unparen(e).(*ast.BinaryExpr); ok && be.Op == token.ADD && strings.Contains(core.ExprStr(be.X), "headerSize") {
-					if c, ok := core.ConstInt(ri, be.Y); ok && c == 4 {
+				if be, ok := core.Unparen(e).(*ast.BinaryExpr); ok && be.Op == token.ADD {
+					if c, ok := core.ConstInt(ri, be.Y); ok && c == 4 && definedByCall(rh, be.X, func(c *ast.CallExpr) bool {
+						return core.CalleeName(ri, c) == pk+".readHeaderSize"
+					}) {
 						rOK = true
 					}
 				}
@@ -396,21 +426,52 @@ func fieldSeq(f *core.Func) []string {
 		case short == "UnmarshalWithDecoder":
 			out = append(out, "meta")
 		case (short == "Write" || short == "Read") && strings.Contains(nm, "gagliardetto/binary") && len(c.Args) == 1:
-			a := core.ExprStr(c.Args[0])
-			switch {
-			case strings.Contains(strings.ToLower(a), "magic"):
-				out = append(out, "bytes8")
-			case strings.Contains(strings.ToLower(a), "prefix"):
-				out = append(out, "bytes2")
-			case strings.Contains(strings.ToLower(a), "meta"):
-				out = append(out, "meta")
-			default:
-				out = append(out, "bytes?")
-			}
+			out = append(out, bytesKind(f, c.Args[0]))
 		}
 		return true
 	})
 	return out
+}
+
+// bytesKind classifies a byte-slice argument of the header codec by what it is, not by how it is called: a slice of an
+// N-byte array (or a buffer made with the length of one) is "bytesN", the marshalled metadata is "meta".
+func bytesKind(f *core.Func, arg ast.Expr) string {
+	info := f.Pkg.TypesInfo
+	arrLen := func(e ast.Expr) int64 {
+		if se, ok := core.Unparen(e).(*ast.SliceExpr); ok && se.Low == nil && se.High == nil {
+			if t := info.TypeOf(se.X); t != nil {
+				if at, ok := t.Underlying().(*types.Array); ok {
+					return at.Len()
+				}
+			}
+		}
+		return -1
+	}
+	if n := arrLen(arg); n >= 0 {
+		return fmt.Sprintf("bytes%d", n)
+	}
+	if o := core.ObjOf(info, arg); o != nil {
+		d := singleDef(f, o)
+		if d == nil {
+			d = singleDefOrInit(f, o)
+		}
+		if c, ok := core.Unparen(d).(*ast.CallExpr); ok && d != nil {
+			if core.BuiltinName(info, c) == "make" && len(c.Args) >= 2 {
+				if v, ok := core.ConstInt(info, c.Args[1]); ok {
+					return fmt.Sprintf("bytes%d", v)
+				}
+				if lc, ok := core.Unparen(c.Args[1]).(*ast.CallExpr); ok && core.BuiltinName(info, lc) == "len" && len(lc.Args) == 1 {
+					if n := arrLen(lc.Args[0]); n >= 0 {
+						return fmt.Sprintf("bytes%d", n)
+					}
+				}
+			}
+			if sel, ok := core.Unparen(c.Fun).(*ast.SelectorExpr); ok && strings.HasSuffix(core.NamedTypeName(info.TypeOf(sel.X)), "indexmeta.Meta") {
+				return "meta"
+			}
+		}
+	}
+	return "bytes?"
 }
 
 func c05HeaderOrder(r *core.Report, pk string) {
@@ -459,8 +520,25 @@ func c05Presence(r *core.Report, pk string) {
 			}
 			continue
 		}
+		// <element the search returned> == <Hash(sig)>
 		be, isBin := core.Unparen(res[0]).(*ast.BinaryExpr)
-		if !isBin || be.Op != token.EQL || !(strings.Contains(core.ExprStr(be), "wantedHash") || strings.Contains(strings.ToLower(core.ExprStr(be)), "hash")) {
+		fromCall := func(e ast.Expr, callee string) bool {
+			o := core.ObjOf(info, stripConvs(info, e))
+			if o == nil {
+				return false
+			}
+			hit := false
+			ast.Inspect(f.Body, func(m ast.Node) bool {
+				if as, isA := m.(*ast.AssignStmt); isA && len(as.Rhs) == 1 && len(as.Lhs) >= 1 && core.ObjOf(info, as.Lhs[0]) == o {
+					if c, isC := core.Unparen(as.Rhs[0]).(*ast.CallExpr); isC && core.CalleeName(info, c) == callee {
+						hit = true
+					}
+				}
+				return true
+			})
+			return hit
+		}
+		if !isBin || be.Op != token.EQL || !((fromCall(be.X, pk+".Hash") && fromCall(be.Y, pk+".searchEytzinger")) || (fromCall(be.Y, pk+".Hash") && fromCall(be.X, pk+".searchEytzinger"))) {
 			ok, why = false, "presence is decided by "+core.ExprStr(res[0])
 		}
 	}
@@ -478,8 +556,10 @@ func c05Presence(r *core.Report, pk string) {
 			guarded := false
 			for _, fc := range g.FactsAt(rn) {
 				s := core.ExprStr(fc.Expr)
-				if strings.Contains(s, "err != nil") && fc.Truth {
-					errInvolved = true
+				if x, isNil, isCmp := core.NilCompare(info, fc.Expr); isCmp && isNil != fc.Truth {
+					if o := core.ObjOf(info, x); o != nil && core.IsErrorType(o.Type()) {
+						errInvolved = true // an error is known to be non-nil here
+					}
 				}
 				if fc.Truth && strings.Contains(s, "ErrNotFound") {
 					guarded = true
@@ -553,7 +633,7 @@ func c05Storage(r *core.Report, pk string) {
 			if se, isSe := rhs.(*ast.SliceExpr); isSe && se.Slice3 && se.Max != nil {
 				ok2 = core.ExprStr(se.High) == core.ExprStr(se.Max) // cap limited to the bucket's own region
 			}
-			r.Check(ok2, rule, fmt.Sprintf("%s#bucket-slot=%s", f.Key, core.Trunc(core.ExprStr(rhs), 40)), pos(r, as), "the bucket's slice is freshly made or grown by append on itself",
+			r.Check(ok2, rule, fmt.Sprintf("%s#bucket-slot=%s", f.Key, core.Trunc(core.KeyStr(f, rhs), 40)), pos(r, as), "the bucket's slice is freshly made or grown by append on itself",
 				"a bucket of the prefix table is assigned "+core.ExprStr(rhs)+": buckets may share a backing array, so appending to one bucket overwrites the hashes of its neighbour")
 			return true
 		})
@@ -681,4 +761,28 @@ func c05Orientation(r *core.Report, pk string) {
 	}
 	r.Check(asc && swOK && right, rule, pk+"#sort-ascending-search-right-on-less", posP(r, se.Pos()), "buckets are sorted ascending before the eytzinger layout and the search descends right when the probed element is smaller than the target",
 		fmt.Sprintf("layout and search orientation disagree (writer ascending: %v, sort-then-layout: %v, reader goes right on k < x: %v%s)", asc, swOK, right, why))
+}
+
+// advancedInLoopOf: the innermost range loop around stmt also contains `o += X` or `o = o + X`.
+func advancedInLoopOf(f *core.Func, stmt ast.Node, o types.Object) bool {
+	info := f.Pkg.TypesInfo
+	rs := enclosingRange(f.Body, stmt)
+	if rs == nil {
+		return false
+	}
+	found := false
+	ast.Inspect(rs.Body, func(m ast.Node) bool {
+		as, ok := m.(*ast.AssignStmt)
+		if !ok || len(as.Lhs) != 1 || len(as.Rhs) != 1 || core.ObjOf(info, as.Lhs[0]) != o {
+			return true
+		}
+		if as.Tok == token.ADD_ASSIGN {
+			found = true
+		}
+		if be, ok := core.Unparen(as.Rhs[0]).(*ast.BinaryExpr); ok && as.Tok == token.ASSIGN && be.Op == token.ADD && (core.ObjOf(info, be.X) == o || core.ObjOf(info, be.Y) == o) {
+			found = true
+		}
+		return true
+	})
+	return found
 }
